@@ -324,8 +324,14 @@ func (fv *FV) frameCheckLoc(st *State, m modLoc, in ssa.Instruction, callee stri
 	case "mem":
 		// an empty window modifies nothing
 		g = Or(fv.idxLe(m.hi, m.lo), fv.frameAlts(st, m.addr, true, m.lo, m.hi))
+		if m.guard != nil {
+			g = Implies(m.guard, g)
+		}
 	case "fields":
 		g = fv.frameAlts(st, Emb(m.addr, -1), false, nil, nil)
+		if m.guard != nil {
+			g = Implies(m.guard, g)
+		}
 	case "each":
 		// every target object of the callee must be covered by the caller's frame
 		fv.nfresh++
@@ -588,9 +594,17 @@ func (fv *FV) havocFramed(st *State, locs []modLoc, tag string) {
 				cellMods = append(cellMods, Eq(a, m.addr), Eq(par(a), m.addr))
 			}
 		case "fields":
-			cellMods = append(cellMods, Eq(par(a), m.addr), Eq(par(par(a)), m.addr), Eq(par(par(par(a))), m.addr))
+			c := Or(Eq(par(a), m.addr), Eq(par(par(a)), m.addr), Eq(par(par(par(a))), m.addr))
+			if m.guard != nil {
+				c = And(m.guard, c)
+			}
+			cellMods = append(cellMods, c)
 		case "mem":
-			memMods = append(memMods, Eq(a, m.addr))
+			if m.guard != nil {
+				memMods = append(memMods, And(m.guard, Eq(a, m.addr)))
+			} else {
+				memMods = append(memMods, Eq(a, m.addr))
+			}
 		case "each":
 			cellMods = append(cellMods, eachTarget(m, a))
 		}
